@@ -262,6 +262,11 @@ inductive Atom where
   | range (g : Range)
   | err
   | broken (l r : Option Ref)
+  /-- a whole-column / whole-row range one corner of which became `#REF!` (`#REF!:2`, `$A:#REF!`): the text no
+      longer contains a reference at all (the surviving half is a number or a name); it is never displaced
+      again.  Kept as what was printed: sheet prefix, the two corners (abs flags and coordinates), which part
+      of a corner was omitted. -/
+  | frozen (pre : Option Nat) (p1 p2 : Option (Bool × Int × Bool × Int)) (omitRow omitCol : Bool)
 deriving DecidableEq, Repr, Inhabited
 
 -- models parser/mod.rs TokenType::Reference arm at host `h`
@@ -290,15 +295,22 @@ def rhoAtom (d : Disp) (h : Host) : Atom → Atom
       let (x1, x2) := if g.fullRow then (1, LAST_ROW) else (x1, x2)
       let (y1, y2) := if g.fullCol then (1, LAST_COLUMN) else (y1, y2)
       .range (mkRange h g.sheet g.named g.r1.abs x1 g.c1.abs y1 g.r2.abs x2 g.c2.abs y2)
-    | (some (x1, y1), none) => .broken (some (mkRef h g.sheet g.named g.r1.abs x1 g.c1.abs y1)) none
-    -- the sheet name is printed with the first corner only: the second corner alone reads on the host's sheet
-    | (none, some (x2, y2)) => .broken none (some (mkRef h h.sheet false g.r2.abs x2 g.c2.abs y2))
-    | (none, none) => .broken none none
+    | (p1, p2) =>
+      if g.fullRow || g.fullCol then
+        .frozen (if g.named then some g.sheet else none)
+          (p1.map fun (x, y) => (g.r1.abs, x, g.c1.abs, y)) (p2.map fun (x, y) => (g.r2.abs, x, g.c2.abs, y))
+          g.fullRow g.fullCol
+      else match p1, p2 with
+        | some (x1, y1), _ => .broken (some (mkRef h g.sheet g.named g.r1.abs x1 g.c1.abs y1)) none
+        -- the sheet name is printed with the first corner only: the second corner alone reads on the host's sheet
+        | none, some (x2, y2) => .broken none (some (mkRef h h.sheet false g.r2.abs x2 g.c2.abs y2))
+        | none, none => .broken none none
   | .err => .err
   | .broken l r =>
     let f (o : Option Ref) : Option Ref :=
       o.bind fun q => (rhoRef d h q).map fun (x, y) => mkRef h q.sheet q.named q.row.abs x q.col.abs y
     .broken (f l) (f r)
+  | .frozen pre p1 p2 oR oC => .frozen pre p1 p2 oR oC
 
 /-- re-entering the displayed formula at another host (`move_cell`: `get_cell_formula` at the source,
     `set_user_input` at the target): the A1 text is the same, the stored offsets change -/
@@ -313,6 +325,7 @@ def retypeAtom (h h' : Host) : Atom → Atom
                                 r2 := retypeEnd h.row h'.row g.r2, c2 := retypeEnd h.col h'.col g.c2 }
   | .err => .err
   | .broken l r => .broken (l.map (retypeRef h h')) (r.map (retypeRef h h'))
+  | .frozen pre p1 p2 oR oC => .frozen pre p1 p2 oR oC
 
 /-! ## column descriptors -/
 
